@@ -511,7 +511,9 @@ class Gen:
                 pos.append(self.expr(r.choice(["int", "str"]), d))
         for i in range(r.randint(0, 3)):
             if r.random() < 0.2:
-                kws.append("**{" + f"'d{i}': {self.expr('int', d)}" + "}")
+                # (sometimes the mapping repeats an explicit keyword, before or after it: TypeError after everything was evaluated)
+                key = f"d{i}" if r.random() < 0.8 else f"k{r.randint(0, 2)}"
+                kws.append("**{" + f"'{key}': {self.expr('int', d)}" + "}")
             else:
                 kws.append(f"k{i}={self.expr(r.choice(['int', 'str']), d)}")
         pe = any(self.effectful(p) for p in pos)
@@ -726,6 +728,12 @@ class Gen:
             self.vars.pop(a)
             self.vars.pop(b)
             return f"del {a}, {b}"
+        lists = [n for n in names if self.vars[n] == "list"]
+        if lists and r.random() < 0.3 and self.on("del_tuple"):
+            # nested targets are deleted in source order, before the targets that follow them
+            v = r.choice(lists)
+            self.features.add("del_tuple")
+            return f"del ({v}[{self.T('0', force=True)}],), {v}[{self.T(r.choice(['0', '1', '-1']), force=True)}]"
         a = r.choice(names)
         self.vars.pop(a)
         return f"del {a}"
@@ -737,6 +745,9 @@ class Gen:
         if self.rng.random() < 0.2:
             self.vars.pop(name)
             return f"{name}: {kind}"
+        if self.rng.random() < 0.5:
+            # the annotation is an expression too: at module level it is evaluated after the value has been assigned
+            return f"{name}: {self.T(kind, force=True)} = {self.expr(kind, d)}"
         return f"{name}: {kind} = {self.expr(kind, d)}"
 
     def program(self, nstmts):
